@@ -51,6 +51,39 @@ Proof.
 Qed.
 
 (** ** schema views *)
+Lemma merged_field_size_le k sels : sels_size (merged_field k sels) <= sels_size sels.
+Proof.
+  unfold merged_field. induction sels as [|x r IH]; simpl; [lia|].
+  rewrite sels_size_app. destruct x as [a f sub|c sub|f c body]; simpl sels_size; try lia.
+  destruct (bytes_eqb (sel_key a f) k); [|simpl; lia].
+  rewrite sel_size_field. lia.
+Qed.
+
+Lemma merged_field_size_lt k sels a f sub :
+  In (SField a f sub) sels -> sel_key a f = k -> sels_size (merged_field k sels) < sels_size sels.
+Proof.
+  unfold merged_field. induction sels as [|x r IH]; simpl; [intros []|].
+  intros [H|H] E.
+  - subst x. rewrite E, bytes_eqb_refl. rewrite sels_size_app, sel_size_field.
+    pose proof (merged_field_size_le k r) as Hle. unfold merged_field in Hle. lia.
+  - specialize (IH H E). rewrite sels_size_app.
+    destruct x as [a' f' sub'|c' sub'|f' c' body]; simpl sels_size; try lia.
+    destruct (bytes_eqb (sel_key a' f') k); [rewrite sel_size_field; lia | simpl; lia].
+Qed.
+
+Lemma merged_field_nil k sels : (forall a f sub, In (SField a f sub) sels -> sel_key a f = k -> sub = []) ->
+  merged_field k sels = [].
+Proof.
+  induction sels as [|x r IH]; simpl; [reflexivity|]. intros H.
+  destruct x as [a f sub|c sub|f c body]; simpl.
+  - destruct (bytes_eqb (sel_key a f) k) eqn:E.
+    + apply bytes_eqb_true in E. rewrite (H a f sub (or_introl eq_refl) E). simpl.
+      apply IH. intros a' f' sub' Hi. apply H. right. exact Hi.
+    + apply IH. intros a' f' sub' Hi. apply H. right. exact Hi.
+  - apply IH. intros a' f' sub' Hi. apply H. right. exact Hi.
+  - apply IH. intros a' f' sub' Hi. apply H. right. exact Hi.
+Qed.
+
 Lemma find_some_name (S : schema) n d : lookup_type S n = Some d -> tdef_name d = n /\ In d (s_types S).
 Proof.
   unfold lookup_type. intros H. apply find_some in H as [H1 H2]. apply bytes_eqb_true in H2. split; assumption.
@@ -146,10 +179,35 @@ Section EnvLocal.
         end
     end.
 
+  Lemma all_pairs_elim {A} (p : A -> A -> bool) l : all_pairs p l = true ->
+    forall x y, In x l -> In y l -> x = y \/ p x y = true \/ p y x = true.
+  Proof.
+    induction l as [|z r IH]; simpl; [intros _ x y []|].
+    intros H. apply andb_true_iff in H as [H1 H2]. rewrite forallb_forall in H1.
+    intros x y [Hx|Hx] [Hy|Hy].
+    - left. congruence.
+    - subst z. right. left. apply H1. exact Hy.
+    - subst z. right. right. apply H1. exact Hx.
+    - apply (IH H2); assumption.
+  Qed.
+
+  Lemma keys_mergeable_elim kfs : keys_mergeable kfs = true ->
+    forall k1 f1 k2 f2, In (k1, f1) kfs -> In (k2, f2) kfs -> lower_bytes k1 = lower_bytes k2 -> k1 = k2 /\ f1 = f2.
+  Proof.
+    intros H k1 f1 k2 f2 H1 H2 E. unfold keys_mergeable in H.
+    destruct (all_pairs_elim _ _ H _ _ H1 H2) as [Heq|[Hp|Hp]].
+    - inversion Heq. split; reflexivity.
+    - simpl in Hp. rewrite E, bytes_eqb_refl in Hp. simpl in Hp. apply andb_true_iff in Hp as [Ha Hb].
+      apply bytes_eqb_true in Ha. apply bytes_eqb_true in Hb. split; assumption.
+    - simpl in Hp. rewrite E, bytes_eqb_refl in Hp. simpl in Hp. apply andb_true_iff in Hp as [Ha Hb].
+      apply bytes_eqb_true in Ha. apply bytes_eqb_true in Hb. split; symmetry; assumption.
+  Qed.
+
   Lemma env_local_elim t sels : env_local S frs t sels = true ->
     composite S t = true /\
     (forall k f, In (k, f) (direct_fields sels) -> begins_with_letter k = true \/ (is_typename k = true /\ is_typename f = true)) /\
-    NoDup (map (fun kf : name * name => lower_bytes (fst kf)) (direct_fields sels)) /\
+    (forall k1 f1 k2 f2, In (k1, f1) (direct_fields sels) -> In (k2, f2) (direct_fields sels) ->
+                         lower_bytes k1 = lower_bytes k2 -> k1 = k2 /\ f1 = f2) /\
     (has_fragment sels = true -> is_object_type S t = true \/ exists k, first_typename sels = Some k) /\
     (forall s, In s sels -> sel_local t s = true).
   Proof.
@@ -159,7 +217,7 @@ Section EnvLocal.
     split; [exact H1|]. split.
     { intros k f HI. rewrite forallb_forall in H2. specialize (H2 _ HI). simpl in H2.
       apply orb_true_iff in H2 as [H2|H2]; [left; exact H2 | right; apply andb_true_iff in H2; exact H2]. }
-    split; [apply nodupb_NoDup; exact H3|]. split.
+    split; [apply keys_mergeable_elim; exact H3|]. split.
     { intros Hf. rewrite Hf in H4. simpl in H4. apply orb_true_iff in H4 as [H4|H4]; [left; exact H4|].
       right. destruct (first_typename sels) as [k|]; [exists k; reflexivity | discriminate]. }
     intros s HI. rewrite forallb_forall in H5. specialize (H5 s HI). unfold sel_local. exact H5.
@@ -170,10 +228,11 @@ Lemma all_structs_S S P f t sels :
   all_structs S P (Datatypes.S f) t sels =
   P t sels &&
   forallb (fun s => match s with
-                    | SField _ fn sub =>
+                    | SField a fn _ =>
                         if is_typename fn then true
                         else match field_type S t fn with
-                             | Some ft => if composite S (unwrap ft) then all_structs S P f (unwrap ft) sub else true
+                             | Some ft => if composite S (unwrap ft)
+                                          then all_structs S P f (unwrap ft) (merged_field (sel_key a fn) sels) else true
                              | None => true
                              end
                     | SInline c _ => let c' := inline_cond t c in all_structs S P f c' (merged_inline t c' sels)
@@ -199,8 +258,8 @@ Section GenTotal.
   Notation gen := (gen_named no_quirks S fragTypes).
   Notation EL := (env_local S frs).
 
-  Lemma gen_leaf fuel n st : leaf_type S n = true ->
-    exists core st', gen (Datatypes.S fuel) n [] st = Ok (core, true, st').
+  Lemma gen_leaf fuel n sels st : leaf_type S n = true ->
+    exists core st', gen (Datatypes.S fuel) n sels st = Ok (core, true, st').
   Proof.
     unfold leaf_type. simpl. unfold gen_named_body. destruct (builtin_of n) as [b|].
     - intros _. eexists. eexists. reflexivity.
@@ -239,23 +298,25 @@ Section GenTotal.
         simpl.
         assert (Hs : In s sels) by (apply Hin; left; reflexivity).
         assert (Hstep : exists a', step no_quirks S fragTypes (gen fuel) n d hasTn sels s a = Ok a').
-        { destruct a as [[[fields conds] done] st0]. unfold step.
+        { destruct a as [[[[fields conds] done] fdone] st0]. unfold step.
           pose proof (Hloc s Hs) as Hsl. rewrite forallb_forall in Hall. pose proof (Hall s Hs) as Has.
           destruct s as [al f sub|c sub|f c body].
           - (* field *)
+            cbn [q_no_field_merge no_quirks negb andb].
+            destruct (mem (sel_key al f) fdone); [eexists; reflexivity|].
             simpl in Hsl. destruct (is_typename f) eqn:Etn; [eexists; reflexivity|].
             destruct (field_type S n f) as [ft|] eqn:Eft; [|discriminate].
             destruct (field_type_lookup _ _ _ _ Eft) as [d' [fs [Hl' [Hassoc Hd']]]].
             rewrite Hl in Hl'. inversion Hl'; subst d'.
-            assert (Hgt : exists g st', gen_type (gen fuel) ft sub st0 = Ok (g, st')).
+            assert (Hgt : exists g st', gen_type (gen fuel) ft (merged_field (sel_key al f) sels) st0 = Ok (g, st')).
             { unfold gen_type.
               destruct (composite S (unwrap ft)) eqn:Ecomp.
-              - destruct (IH (unwrap ft) sub st0 f' Has) as [core [st' Hg]].
-                + pose proof (sels_size_In _ _ Hs) as Hle. rewrite sel_size_field in Hle. lia.
+              - destruct (IH (unwrap ft) (merged_field (sel_key al f) sels) st0 f' Has) as [core [st' Hg]].
+                + pose proof (merged_field_size_lt (sel_key al f) sels al f sub Hs eq_refl). lia.
                 + rewrite Hg. eexists. eexists. reflexivity.
-              - apply andb_true_iff in Hsl as [Hnil Hleaf]. destruct sub; [|discriminate].
+              - apply andb_true_iff in Hsl as [Hnil Hleaf].
                 destruct fuel as [|fuel']; [pose proof (sels_size_In _ _ Hs) as Hle; rewrite sel_size_field in Hle; lia|].
-                destruct (gen_leaf fuel' (unwrap ft) st0 Hleaf) as [core [st' Hg]].
+                destruct (gen_leaf fuel' (unwrap ft) (merged_field (sel_key al f) sels) st0 Hleaf) as [core [st' Hg]].
                 rewrite Hg. eexists. eexists. reflexivity. }
             destruct Hgt as [g [st' Hg]].
             destruct Hd' as [[n' [ifs Ed]]|[n' Ed]]; subst d; rewrite Hassoc, Hg; eexists; reflexivity.
@@ -274,7 +335,7 @@ Section GenTotal.
           - (* spread *)
             unfold hasTn. rewrite (typename_guard n d sels _ He Hl Hs eq_refl). eexists. reflexivity. }
         destruct Hstep as [a' Ha']. rewrite Ha'. apply IHr. intros x Hx. apply Hin. right. exact Hx. }
-      destruct (Hloop sels ([], [], [], st) (incl_refl _)) as [[[[fields conds] done] st1] Hl1].
+      destruct (Hloop sels ([], [], [], [], st) (incl_refl _)) as [[[[[fields conds] done] fdone] st1] Hl1].
       rewrite Hl1. destruct conds; eexists; (split; [reflexivity | reflexivity]). }
     destruct Hcomp as [[[core b] st'] [Hr Hb']]. simpl in Hb'. subst b.
     destruct d; try contradiction; exists core, st'; exact Hr.
